@@ -29,13 +29,15 @@ META = {
         "thorough": "6 models (up to 5 parameters) x every fixed mask x all flag combinations",
     },
     "stubs": ["pyhf.optimize.opt_scipy.scipy.optimize.minimize -> MinimizeStub", "pyhf.optimize.opt_minuit.iminuit.Minuit -> FakeMinuit"],
+    "also": "the pure-Python objective body of the jax wrapper (opt_jax._final_objective) is executed symbolically for every fixed mask: it must equal twice_nll at the correctly stitched point",
     "outside_claim": [
         "'objective not higher than any other feasible point', 'the fit succeeds and attains the closed-form optimum', independence of optimiser / backend / gradient use: statements about SLSQP (Fortran/C) and MIGRAD (C++) iterations on floating-point objectives - no encoding within reach",
-        "opt_jax / opt_pytorch / opt_tflow objective wrappers",
+        "the jit / autodiff layers of opt_jax and the opt_pytorch / opt_tflow objective wrappers (compiled frameworks)",
     ],
 }
 
 MODELS = ["single:normsys", "pair:histosys+normsys", "single:shapesys", "poi:last", "pair:normsys+staterror", "share:histosys-channels"]
+SPECFIXED = "pair:histosys+normsys"      # also run with one nuisance parameter declared fixed in the spec
 
 
 def items(tier, seed):
@@ -46,6 +48,11 @@ def items(tier, seed):
             for stitch in (False, True):
                 for which in ("fit", "fixed_poi_fit"):
                     out.append((MODELS[mi], opt, stitch, which))
+    for opt in ("scipy", "minuit"):
+        for stitch in (False, True):
+            for which in ("fit", "fixed_poi_fit"):
+                out.append((SPECFIXED + "+specfixed", opt, stitch, which))
+    out.append(("jaxstitch", "scipy", True, "fit"))
     out.append(("flags", "scipy", False, "fit"))
     out.append(("flags", "minuit", True, "fit"))
     out.append(("failure", "scipy", False, "fit"))
@@ -54,8 +61,14 @@ def items(tier, seed):
 
 
 def _model(env, tag):
+    specfixed = tag.endswith("+specfixed")
+    tag = tag.replace("+specfixed", "")
     sh = next(s for s in shapes.family_core() if s["tag"] == tag)
     spec = shapes.realize(env, sh["spec"])
+    if specfixed:
+        # the measurement declares a nuisance parameter fixed; a caller who passes its own mask overrides that
+        name = sorted({m["name"] for _, _, m in shapes.walk_mods(spec)} - {sh["poi"]})[-1]
+        spec = dict(spec, parameters=list(spec.get("parameters", [])) + [{"name": name, "fixed": True}])
     return pyhf.Model(spec, poi_name=sh["poi"])
 
 
@@ -114,6 +127,8 @@ def harness_for(item):
     mtag, optname, stitch, which = item
     if mtag == "flags":
         return lambda env: _flags(env, optname, stitch)
+    if mtag == "jaxstitch":
+        return _jaxstitch
     if mtag == "failure":
         return lambda env: _failure(env, optname)
 
@@ -184,6 +199,10 @@ def harness_for(item):
                 c = r["stub"].calls[-1]
                 nvar = n - sum(eff_fixed) if stitch else n
                 env.holds(f"handed:nvars[{ml}]", len(c["x0"]) == nvar, key=f"{key0}:handed")
+                # exactly the caller's fixed components (and the POI of a fixed-POI fit) are pinned - not the model's own
+                # suggestion, not fewer
+                want_pinned = [] if stitch else [i for i in range(n) if eff_fixed[i]]
+                env.holds(f"handed:pinned[{ml}]", c["pinned"] == want_pinned, key=f"{key0}:handed-fixed-set")
                 if not stitch:
                     for i in range(n):
                         env.eq(f"handed:x0[{ml},{i}]", c["x0"][i], eff_init[i], key=f"{key0}:handed")
@@ -222,6 +241,40 @@ def harness_for(item):
                     env.eq(f"handed:lo[{ml},{i}]", mn.limits[j][0], r["bounds"][i][0], key=f"{key0}:handed")
                     env.eq(f"handed:hi[{ml},{i}]", mn.limits[j][1], r["bounds"][i][1], key=f"{key0}:handed")
     return h
+
+
+def _jaxstitch(env):
+    """the (pure Python) objective body of the jax wrapper stitches fixed values exactly like the common shim"""
+    import importlib
+    oj = importlib.import_module("pyhf.optimize.opt_jax")
+    env.install_backend()
+    tb = env.backend
+    N = env.num
+    model = _model(env, "share:histosys-channels")
+    cfg = model.config
+    n = cfg.npars
+    data = tb.astensor([env.sym(f"jd{i}") for i in range(cfg.nmaindata + cfg.nauxdata)])
+    cases = []
+    for mk, mask in enumerate(itertools.product((0, 1), repeat=n)):
+        if not any(mask) or all(mask):
+            continue
+        fixed_idx = [i for i in range(n) if mask[i]]
+        var_idx = [i for i in range(n) if not mask[i]]
+        # all symbols first: a counterexample must carry a value for every one of them
+        cases.append((mask, fixed_idx, var_idx, [env.sym(f"jf{mk}_{i}") for i in fixed_idx], [env.sym(f"jx{mk}_{i}") for i in var_idx]))
+    ys = [env.sym(f"jy{i}") for i in range(n)]
+    for mask, fixed_idx, var_idx, fv, xv in cases:
+        got = oj._final_objective(tb.astensor(xv), data, tuple(fv), tuple(fixed_idx), tuple(var_idx), True, pyhf.infer.mle.twice_nll, model)
+        full = [None] * n
+        for i, v in zip(fixed_idx, fv):
+            full[i] = v
+        for i, v in zip(var_idx, xv):
+            full[i] = v
+        want = pyhf.infer.mle.twice_nll(tb.astensor(full), data, model)[0]
+        env.eq(f"jax-objective[{''.join(map(str, mask))}]", np.asarray(got).reshape(-1)[0] if env.mode != "sym" else got, want, key="jax:stitch-objective")
+    got = oj._final_objective(tb.astensor(ys), data, (), (), tuple(range(n)), False, pyhf.infer.mle.twice_nll, model)
+    want = pyhf.infer.mle.twice_nll(tb.astensor(ys), data, model)[0]
+    env.eq("jax-objective[nostitch]", got, want, key="jax:stitch-objective")
 
 
 def _flags(env, optname, stitch):
